@@ -26,6 +26,13 @@ func cfgC02(t *rapid.T) gen.ProgCfg {
 	cfg.PEmbedAsg = 25
 	cfg.PDupChild = 0
 	cfg.BNames = []string{"", `"a"`, `"b"`, `"c"`, `"d"`, `"e"`, `"f"`}
+	if gen.Chance(t, 25, "overlap") {
+		// block types that are also variable/field names (an unnamed child is
+		// stored under its type, where an assignment may overwrite it), and
+		// TYPE/NAME as ordinary variable names
+		cfg.Types = []string{"s", "a", "b"}
+		cfg.Names = []string{"a", "b", "c", "d", gen.Pick(t, "pseudo", []string{"TYPE", "NAME", "e"})}
+	}
 	return cfg
 }
 
